@@ -198,11 +198,15 @@ except for the very first pass, not later than the duration (a partial step leav
 so `duration - simTime` would not be a bound: controls may cut one hydraulic step into many pieces) -/
 def runFuel (cfg : Cfg) (prev : Int) : Nat := (cfg.duration - prev).toNat + 2
 
-/-- `run_sim` on a model whose clock is at `simTime` (0 and `prevTime = -1` on a fresh model) -/
+/-- `run_sim` on a model whose clock is at `simTime` (0 and `prevTime = -1` on a fresh model).
+A model that was already simulated up to the duration (`sim_time` is the next hydraulic timestep and lies beyond it)
+is left alone and empty results are returned (repaired code, fixes/C10-completed-run-continued.patch; before the
+repair the `while True` loop solved one more step beyond the duration). -/
 def runSim (cfg : Cfg) (simTime prevTime : Int) (vals : Vals) : St × List Row :=
   let first := simTime == 0
   let prev := if first then -1 else prevTime
   let s : St := { simTime, prevTime := prev, ruleIter := initRuleIter cfg first prev, vals, ruleLog := [] }
-  runLoop cfg (runFuel cfg prev) first s []
+  if first = false ∧ simTime > cfg.duration then (s, [])
+  else runLoop cfg (runFuel cfg prev) first s []
 
 end Wntr.Sched
